@@ -4,3 +4,4 @@ import OdfProps.C05
 import OdfProps.C01
 import OdfProps.C02
 import OdfProps.C07
+import OdfProps.C08
